@@ -9,6 +9,7 @@ package c14
 import (
 	"errors"
 	"fmt"
+	"reflect"
 	"runtime"
 	"runtime/debug"
 	"strconv"
@@ -139,8 +140,16 @@ func hotRules(arg string) []*hotspot.Rule {
 	var rs []*hotspot.Rule
 	for _, s := range split(arg) {
 		n := nums(s)
-		if len(n) != 13 {
+		if len(n) != 13 && len(n) != 14 {
 			panic("bad hotspot rule " + s)
+		}
+		key := ""
+		if len(n) == 14 && n[13] != 0 {
+			key = "k" + strconv.FormatUint(n[13], 10)
+		}
+		idx := int(n[4]) // 1000+k stands for -k
+		if n[4] >= 1000 {
+			idx = -int(n[4] - 1000)
 		}
 		var items map[interface{}]int64
 		switch n[10] {
@@ -151,12 +160,42 @@ func hotRules(arg string) []*hotspot.Rule {
 		}
 		rs = append(rs, &hotspot.Rule{
 			ID: strconv.FormatUint(n[0], 10), Resource: resName(n[1]), MetricType: hotspot.MetricType(n[2]),
-			ControlBehavior: hotspot.ControlBehavior(n[3]), ParamIndex: int(n[4]), Threshold: int64(n[5]),
+			ControlBehavior: hotspot.ControlBehavior(n[3]), ParamIndex: idx, ParamKey: key, Threshold: int64(n[5]),
 			MaxQueueingTimeMs: int64(n[6]), BurstCount: int64(n[7]), DurationInSec: int64(n[8]), ParamsMaxCapacity: int64(n[9]),
 			SpecificItems: items,
 		})
 	}
 	return rs
+}
+
+// reqOpts turns the request token `a.b.c@k=v@k=v` (`0` = no arguments) into entry options
+func reqOpts(tok string) []sentinel.EntryOption {
+	parts := strings.Split(tok, "@")
+	var opts []sentinel.EntryOption
+	if parts[0] != "0" && parts[0] != "" {
+		var args []interface{}
+		for _, a := range strings.Split(parts[0], ".") {
+			args = append(args, int(vh.U(a)))
+		}
+		opts = append(opts, sentinel.WithArgs(args...))
+	}
+	for _, kv := range parts[1:] {
+		p := strings.Split(kv, "=")
+		if len(p) != 2 {
+			panic("bad attachment " + kv)
+		}
+		opts = append(opts, sentinel.WithAttachment("k"+strconv.FormatUint(vh.U(p[0]), 10), int(vh.U(p[1]))))
+	}
+	return opts
+}
+
+func fieldNames(v interface{}) string {
+	t := reflect.TypeOf(v)
+	var xs []string
+	for i := 0; i < t.NumField(); i++ {
+		xs = append(xs, t.Field(i).Name)
+	}
+	return strings.Join(xs, ",")
 }
 
 func blockText(b *base.BlockError) string {
@@ -239,16 +278,34 @@ func (it *Interp) step(t []string, op string) string {
 			return "err"
 		}
 		return ""
+	case "fields":
+		switch t[1] {
+		case "cb":
+			return fieldNames(circuitbreaker.Rule{})
+		case "flow":
+			return fieldNames(flow.Rule{})
+		case "hot":
+			return fieldNames(hotspot.Rule{})
+		}
+		panic("bad op " + op)
+	case "flow.rules":
+		var xs []string
+		for _, r := range flow.GetRulesOfResource(resName(vh.U(t[1]))) {
+			xs = append(xs, r.ID)
+		}
+		return vh.List(xs)
+	case "hot.rules":
+		var xs []string
+		for _, r := range hotspot.GetRulesOfResource(resName(vh.U(t[1]))) {
+			xs = append(xs, r.ID)
+		}
+		return vh.List(xs)
 	case "mem":
 		system_metric.SetSystemMemoryUsage(int64(vh.U(t[1])))
 		return ""
 	case "in":
 		it.clk.slept = 0
-		var opts []sentinel.EntryOption
-		if t[3] != "0" {
-			opts = append(opts, sentinel.WithArgs(int(vh.U(t[3]))))
-		}
-		e, b := sentinel.Entry(resName(vh.U(t[2])), opts...)
+		e, b := sentinel.Entry(resName(vh.U(t[2])), reqOpts(t[3])...)
 		if b != nil {
 			return blockText(b)
 		}
@@ -271,8 +328,8 @@ func (it *Interp) step(t []string, op string) string {
 	case "e":
 		it.clk.slept = 0
 		var opts []sentinel.EntryOption
-		if len(t) > 3 && t[3] != "0" {
-			opts = append(opts, sentinel.WithArgs(int(vh.U(t[3]))))
+		if len(t) > 3 {
+			opts = reqOpts(t[3])
 		}
 		e, b := sentinel.Entry(resName(vh.U(t[1])), opts...)
 		if len(t) > 4 {
